@@ -404,6 +404,8 @@ func runC16(c *Check, w *World) {
 					// presence of the parameter
 				case strings.Contains(cs, "extract(1; call(strconv.") && strings.Contains(cs, get(fk[1])):
 					// success of its parse
+				case ct.Op == "bin" && strings.Contains(cs, "extract(0; call(strconv.") && strings.Contains(cs, get(fk[1])):
+					// a range test on the parsed number itself
 				default:
 					extra = cs
 				}
